@@ -78,6 +78,10 @@ def from_case(c):
             if v != dflt:
                 ov.append((FEAT_ID0 + f, v))
         langs.append((LANG_TAGS[k], ov))
+    # the order of the Sill entries is a choice of the writer, not part of the abstract map: half of the fonts list the
+    # languages in descending tag order (the reader does not require a sorted table)
+    if (len(defs) + sum(len(d) for d in defs)) & 1:
+        langs.reverse()
     names = {NAME_ID0 + f: lab["u32"] for f, lab in enumerate(c["labels"])}
     return {"feat_hex": feat_table(defs).hex(), "sill_hex": sill_table(langs).hex(), "name_hex": name_table(names).hex()}
 
